@@ -122,7 +122,16 @@ func (c *PublishHeader) WriteHTMLTo(w io.Writer) (int64, error) {
 	).WriteHTMLTo(w)
 }
 
-var surnames = gedcom.NewStringSet()
+// surnamesKey identifies one cached set of surnames. The surnames depend on the
+// document and on whether living individuals are shown.
+type surnamesKey struct {
+	document   *gedcom.Document
+	visibility LivingVisibility
+}
+
+// surnames remembers the surnames of each document that is being published.
+// The header of every page needs them, so they are only collected once.
+var surnames = map[surnamesKey]*gedcom.StringSet{}
 
 // surnamesMutex makes sure that pages rendered in parallel wait for the first
 // one to collect all the surnames.
@@ -132,20 +141,26 @@ func getSurnames(document *gedcom.Document, visibility LivingVisibility) *gedcom
 	surnamesMutex.Lock()
 	defer surnamesMutex.Unlock()
 
-	if surnames.Len() == 0 {
-		for _, individual := range document.Individuals() {
-			// A living individual only contributes a surname when living
-			// individuals are shown.
-			if visibility != LivingVisibilityShow && individual.IsLiving() {
-				continue
-			}
+	key := surnamesKey{document, visibility}
+	if cached, ok := surnames[key]; ok {
+		return cached
+	}
 
-			surname := individual.Name().Surname()
-			if surname != "" {
-				surnames.Add(surname)
-			}
+	set := gedcom.NewStringSet()
+	for _, individual := range document.Individuals() {
+		// A living individual only contributes a surname when living
+		// individuals are shown.
+		if visibility != LivingVisibilityShow && individual.IsLiving() {
+			continue
+		}
+
+		surname := individual.Name().Surname()
+		if surname != "" {
+			set.Add(surname)
 		}
 	}
 
-	return surnames
+	surnames[key] = set
+
+	return set
 }
